@@ -284,8 +284,8 @@ PROPS = {
         'rule': "seeded histories (profile batch); the model's batch operations are proved/defined as the fold of the single operation, so model agreement = batch equals singles; non-trivial = a batch operation after the first 10 ops",
     },
     'C09': {
-        'budget': _merge(_p('lock', 220, 4000), _p('mixed', 60, 1000)),
-        'projection': [(r'res:(LOCKED|QNEXT|QSTEP|QCLOSE|QUERY)', None), (r'panic_(missing|unexpected):(%s)' % STRUCT, 'locked_now'),
+        'budget': _merge(_p('lock', 220, 4000), _p('mixed', 60, 1000), _p('subs', 80, 1500)),
+        'projection': [(r'res:(LOCKED|QNEXT|QSTEP|QCLOSE|QUERY)', None), (r'ev_locked', None), (r'panic_(missing|unexpected):(%s)' % STRUCT, 'locked_now'),
                        (r'panic_unexpected:(QUERY|QSCAN)', None), (r'panic_unexpected:(%s)' % STRUCT, 'was_locked')],
         'chk': [r'locked'],
         'own_ops': {'QUERY', 'QNEXT', 'QSTEP', 'QCLOSE'},
@@ -343,7 +343,8 @@ PROPS = {
     'C17': {
         'budget': _merge(_p('dump', 220, 4000)),
         'projection': [(r'res:(DUMP|LOAD)', None), (r'panic_(missing|unexpected):(DUMP|LOAD)', None),
-                       (r'res:(ALIVE|NEW|NEWWITH|BNEW|BBATCH|STATS)', 'load')],
+                       (r'res:(ALIVE|NEW|NEWWITH|BNEW|BBATCH|STATS|RM|BRM)', 'load'),
+                       (r'panic_(missing|unexpected):(ALIVE|NEW|NEWWITH|BNEW|BBATCH|STATS|RM|BRM)', 'load')],
         'chk': [r'dump|load|JSON'],
         'own_ops': {'DUMP', 'LOAD'},
         'rule': "seeded histories (profile dump): dump, load into a fresh or reset twin world, shared continuation",
